@@ -550,6 +550,8 @@ class Subscription(BaseSubscription):
         if filter_obj.ids is not None:
             if filter_obj.ids:
                 exact = []
+                # the ids of a filter are alternatives: one OR-ed group
+                alternatives = []
                 for eid in filter_obj.ids:
                     if len(eid) == 64:
                         if self.is_postgres:
@@ -558,12 +560,16 @@ class Subscription(BaseSubscription):
                             exact.append(f"x'{eid}'")
                     elif len(eid) > 2:
                         if self.is_postgres:
-                            subwhere.append(f"encode(id, 'hex') LIKE '{eid}%'")
+                            alternatives.append(f"encode(id, 'hex') LIKE '{eid}%'")
                         else:
-                            subwhere.append(f"lower(hex(id)) LIKE '{eid}%'")
+                            alternatives.append(f"lower(hex(id)) LIKE '{eid}%'")
                 if exact:
                     idstr = ",".join(exact)
-                    subwhere.append(f"events.id IN ({idstr})")
+                    alternatives.insert(0, f"events.id IN ({idstr})")
+                if len(alternatives) == 1:
+                    subwhere.append(alternatives[0])
+                elif alternatives:
+                    subwhere.append("(" + " OR ".join(alternatives) + ")")
             else:
                 raise ValueError("ids")
         if filter_obj.authors is not None:
